@@ -457,9 +457,13 @@ package object
 // pointer where a struct value is expected) and what is returned is assignable to the converter's struct type
 // (KF-55 fixed: the proxy of a value of another struct type was returned as it was).
 //@ func (*StructConverter).To
-//@ props C08
+//@ props C08 C05
 //@ trusted except C08.struct.to.type
 //@ assume[args.wf] c != nil && obj != nil && ref(obj) != nil
+// C05: the loop over the script map visits the keys in Go's random order; the outcome does not depend on it because
+// every key sets the field of its own name - the name handed to FieldByName is the key itself, so two keys never write
+// one field (seed C05f folded several spellings of a key onto one field: the last one visited won).
+//@ callpre[C05.struct.key.own] FieldByName: typeof(obj) == *Map ==> haskey(obj.(*Map).items, arg0)
 //@ callpre[C08.struct.set.assignable] Set: assignable(arg0, recv)
 //@ callpre[C08.struct.deref.valid] Interface: rvalid(recv)
 //@ ensures[C08.struct.to.type] typeof(obj) == *Proxy && err == nil ==> result0 != nil && uf("rt.assignable", bool, uf("go.typeof", reflect.Type, result0), c.typ)
